@@ -360,6 +360,16 @@ type ShadowStreamConn struct {
 }
 
 func (c *ShadowStreamConn) writeToShadowStreamConn(w *ShadowStreamConn) (n int64, err error) {
+	// Forward what a previous Read left behind first.
+	if c.readStart < len(c.readBuf) {
+		nw, err := w.Write(c.readBuf[c.readStart:])
+		c.readStart += nw
+		n = int64(nw)
+		if err != nil {
+			return n, err
+		}
+	}
+
 	writeBuf := w.writeBuf
 	readBuf := writeBuf[2+tagSize : 2+tagSize]
 
@@ -412,6 +422,16 @@ func (c *ShadowStreamConn) Read(b []byte) (n int, err error) {
 
 // WriteTo implements [io.WriterTo].
 func (c *ShadowStreamConn) WriteTo(w io.Writer) (n int64, err error) {
+	// Write out what a previous Read left behind first.
+	if c.readStart < len(c.readBuf) {
+		nw, err := w.Write(c.readBuf[c.readStart:])
+		c.readStart += nw
+		n = int64(nw)
+		if err != nil {
+			return n, err
+		}
+	}
+
 	b := c.getReadBuf()
 
 	for {
